@@ -220,10 +220,10 @@ def Topo (P : Prog) : Prop := ∀ p q, q ∈ (P p).imports → q < p
 
 /-! ## Hypotheses of the guard theorem (all decidable on a finite program) -/
 
-/-- Go's scoping: a package can only name `q.F` / `q.X` if it imports the binding package `q`. -/
+/-- Go's scoping: a package can only name `q.F` / `q.X` if it is `q` or imports the binding package `q`. -/
 def scopedPkg (P : Prog) (p : Nat) : Bool :=
   (P p).allUses.all fun u => match u.mod? with
-    | some m => (P p).imports.any fun q => (P q).binds == some m
+    | some m => (P p).binds == some m || (P p).imports.any fun q => (P q).binds == some m
     | none => true
 
 /-- binding packages contain declarations only (true of every package of github.com/goplus/lib/py) -/
@@ -297,7 +297,7 @@ inductive PyObj
   | long (v : Int)
   | bool (b : Bool)
   | float (bits : BitVec 64)
-  /-- `str` built from UTF-8 bytes; `none` = the bytes are not UTF-8, CPython returns NULL -/
+  /-- `str`, as its UTF-8 bytes -/
   | str (bytes : List UInt8)
   | bytes (b : List UInt8)
   | bytearray (b : List UInt8)
